@@ -483,6 +483,9 @@ FUZZ_RUNS = 15000  # (one c_to_ir call of a 0.5 KB unit under coverage instrumen
 # byte-level mutations only; one per execution (libFuzzer's default of up to 5 stacked mutations leaves < 2 % of the
 # mutants of a C unit compilable, so that the search never gets past the parser)
 FUZZ_ARGS = ["-mutate_depth=1"]
+# executions per libFuzzer run; between the runs the corpus is distilled to the units that compile (vf/fuzz.py).  Short
+# runs: within a few hundred executions the corpus is dominated by rejected units again
+FUZZ_ROUND = 400
 FUZZ_DICT = [w.encode() for w in sorted(cfeat.KEYWORDS_OK)] + [b"<<=", b">>=", b"++", b"--", b"<<", b">>", b"<=", b">=", b"==", b"!=", b"&&", b"||",
              b"+=", b"-=", b"*=", b"/=", b"%=", b"&=", b"|=", b"^=", b" = { ", b" };\n", b"0x", b"u", b"l", b"ul", b"lu", b"ll", b"ull", b"llu", b"U", b"L", b"UL", b"LU", b"LL", b"ULL", b"LLU", b"'a'", b"'\\n'", b"'\\0'", b"\"ab\"", b"1.5", b"1e3",
              b"[2]", b"[0] = ", b".m1 = ", b": 3;", b"case 1: ;", b"default: ;", b"int g1", b"int f1(void) {", b"return 0;", b"\t", b"\n", b"  ", b" \t "]  # fmt: skip
@@ -499,7 +502,10 @@ def _gcc_valid_bounded(src):
 
 def fuzz_features(src):
     """Construct tags of a mutated unit (vf/cfeat.py: clang's AST + lexical rules); None = undecided."""
-    return cfeat.tags(src)
+    try:
+        return cfeat.tags(src)
+    except (RecursionError, MemoryError, KeyError, TypeError, AttributeError, IndexError, ValueError):
+        return None  # an AST shape the walker does not know: undecided, i.e. not reported
 
 
 def fuzz_cfront(data, known_as_label=True):
@@ -540,6 +546,11 @@ def fuzz_cfront(data, known_as_label=True):
     raise fuzz.Failure("fuzzed " + message(case, r), bucket)
 
 
+def fuzz_cfront_keep(label):
+    """corpus distillation between the rounds of a campaign: go on from units that compile"""
+    return label == "ok" or label.startswith("known:")
+
+
 def fuzz_seeds(seed):
     """~30 small units of the supported profile (gcc-valid)"""
     open_ids = set(open_finding_ids(PID))
@@ -561,7 +572,7 @@ def fuzz_layer(ctx):
     try:
         info = {}
         fails = fuzz.campaign(FUZZ_TARGET, fuzz_cfront, fuzz_seeds(ctx.seed), fuzz.runs(FUZZ_RUNS), subseed(ctx.seed, PID, "fuzz"),
-                              ctx.tmpdir(), dictionary=FUZZ_DICT, info=info, libfuzzer_args=FUZZ_ARGS)  # fmt: skip
+                              ctx.tmpdir(), dictionary=FUZZ_DICT, info=info, libfuzzer_args=FUZZ_ARGS, rounds=max(4, fuzz.runs(FUZZ_RUNS) // FUZZ_ROUND))  # fmt: skip
     except ImportError:
         ctx.stats.notes.append("atheris unavailable")
         return
